@@ -159,6 +159,37 @@ func runTexturedQR() {
 	runJobs("QR versions 28 and 40 with long runs of equal modules (payload of zeros / of 0xFF bytes x every forced mask 0..7) x margins x 3 requested sizes", jobs)
 }
 
+// runFarCanvases: flat and narrow canvases whose far edge lies beyond 2^16 and 2^17 pixels, so that the
+// centred symbol itself starts beyond pixel 65535: offsets kept in 16-bit tables or counters go wrong
+// only there.
+func runFarCanvases() {
+	var jobs []job
+	add := func(s *symbol, margins []int) {
+		if s == nil {
+			return
+		}
+		for _, m := range margins {
+			var reqs []pt
+			for _, far := range []int{140000, 262147} {
+				if s.oneD {
+					reqs = append(reqs, pt{far, 3})
+					continue
+				}
+				reqs = append(reqs, pt{far, 12}, pt{12, far}, pt{far, 75})
+			}
+			jobs = append(jobs, job{s, m, reqs})
+		}
+	}
+	add(qrSymbol(1), []int{0, defaultMargin})
+	add(dmSymbol(10, 10), []int{defaultMargin})
+	add(dmSymbol(8, 18), []int{defaultMargin})
+	add(dmSymbol(16, 48), []int{defaultMargin})
+	for _, sp := range onedSpecs {
+		add(onedSymbol(sp, 0), []int{0, defaultMargin})
+	}
+	runJobs("far canvases: QR version 1, Data Matrix 10x10, 8x18 and 16x48, 9 1-D writers x requests {140000, 262147} x {12, 75} and 12 x {140000, 262147} (1-D: height 3): the centred symbol starts beyond pixel 65535", jobs)
+}
+
 func runHintedQR() {
 	var jobs []job
 	names := []string{"qr+ecH", "qr+ecQstr", "qr+ecLstr", "qr+v3", "qr+mask5", "qr+utf8", "qr+gs1", "qr+all"}
